@@ -1008,5 +1008,7 @@ func main() {
 		c.Cases("combo", c.N(16, 600), func(k *mon.Case) { runScenario(k, genCombo(k)) })
 		c.Cases("early", c.N(16, 320), func(k *mon.Case) { runScenario(k, genEarly(k)) })
 		c.Cases("timeout-race", c.N(16, 320), func(k *mon.Case) { runScenario(k, genTimeoutRace(k)) })
+		realDeadline(c)
+		stallStream(c)
 	})
 }
